@@ -92,7 +92,10 @@ def build(s):
     if not late:
         set_options()
     for name, mult in s["patterns"].items():
-        wn.add_pattern(name, list(mult))
+        if name in s.get("nowrap", ()):      # a pattern that does not repeat: zero after its last period
+            wn.add_pattern(name, wntr.network.elements.Pattern(name, multipliers=list(mult), time_options=wn.options.time, wrap=False))
+        else:
+            wn.add_pattern(name, list(mult))
     ncurve = [0]
 
     def curve(kind, pts):
@@ -162,7 +165,9 @@ def add_controls(wn, ctrls):
         elif k == "clock":
             cond = C.TimeOfDayCondition(wn, c.get("rel", "="), c["t"], repeat=c.get("repeat", True))
         elif k == "level":
-            cond = C.ValueCondition(wn.get_node(c["node"]), "level", c["rel"], c["thr"])
+            # the same threshold spelled on the tank's level, on its pressure (= level) or on its head (= level + elevation)
+            src = c.get("src", "level")
+            cond = C.ValueCondition(wn.get_node(c["node"]), src, c["rel"], c["thr"] + (wn.get_node(c["node"]).elevation if src == "head" else 0.0))
         elif k == "pressure":
             cond = C.ValueCondition(wn.get_node(c["node"]), "pressure", c["rel"], c["thr"])
         else:
@@ -231,7 +236,13 @@ def expected_demand(s, jn, t):
     for b, p, c in node(s, jn)["demands"]:
         if p is None and "1" in s["patterns"]:
             p = "1"         # a demand without a pattern follows the default pattern (options.hydraulic.pattern = '1') when that exists
-        m = 1.0 if p is None else pattern_value(s["patterns"][p], t, o["pstart"], o["pat"], o.get("interp", False))
+        if p is not None and p in s.get("nowrap", ()):
+            k = int((t + o["pstart"]) // o["pat"])
+            m = s["patterns"][p][k] if 0 <= k < len(s["patterns"][p]) else 0.0      # (documented: no repetition, no interpolation)
+            if len(s["patterns"][p]) == 1:
+                m = s["patterns"][p][0]
+        else:
+            m = 1.0 if p is None else pattern_value(s["patterns"][p], t, o["pstart"], o["pat"], o.get("interp", False))
         tot += b * m
     return tot * o["mult"]
 
